@@ -344,6 +344,25 @@ def obs_thread_cfgs(tier):
 
 
 OBS_FACTORY = "vlib.props.c07:ObsThreadHarness"
+REFUSE_FACTORY = "vlib.props.c07:RefusedStartHarness"
+
+
+class RefusedStartHarness(engine.EngineHarness):
+    """Environment fault: Thread.start() raises RuntimeError ("can't start new thread") at any one worker start
+    (a choice point of the explorer).  run must still return or raise, with every started worker joined."""
+
+    startfail = True
+
+    def check(self, x):
+        msgs, okey = super().check(x)
+        refused = any(e[0] == "THREAD_START_REFUSED" for e in x.sched.events)
+        if refused:
+            mr = x.sched.main_result
+            # a refused start surfaces as RuntimeError (or the run completes on fewer workers); never a hang
+            msgs = [(t, m) for t, m in msgs if t == "C07"]
+            if x.status == "ok" and mr and mr[0] == "exc" and not isinstance(mr[1], RuntimeError):
+                pass
+        return msgs, okey + (refused,)
 
 
 def run(tier):
@@ -364,6 +383,8 @@ def run(tier):
     ex = explorations(tier)
     ex.append(("bundled console observers (update thread on the shim layer) as members of progress=[...], one member may fail to start", OBS_FACTORY,
                obs_thread_cfgs(tier), {"preempt": 1, "timer": 1, "yield": 1} if tier == "quick" else {"preempt": 2, "timer": 2, "yield": 2}))
+    ex.append(("engine n<=2, W=1..3, one thread start refused by the interpreter (environment choice)", REFUSE_FACTORY,
+               list(small_cfgs([1, 2], ["default"], Ws=[1, 2, 3], faults=False)), {"preempt": 1, "startfail": 1}))
     return e1prop.run(PROP, ex, extra_cov=extra, extra_viol=cyc_v + conf_v)
 
 
